@@ -150,6 +150,14 @@ def run(chk: harness.Check):
         chk.expect(ok, "C14.D-same-analysis", f"{name}|parse_events", f"{f.file}:{f.line}",
                    f"{name} must call parse_events(events, input, self.extensions, &self.converter, options)",
                    sample=f"{name}: parse_events(.., input, self.extensions, &self.converter, options)")
+        # ... on EVERY path: an early return (a "nothing to find" fast path) answers from a different notion of where metadata can be
+        if pe:
+            K = {pe[0][0]}
+            reach = f.reach_from(0, removed_nodes=K)
+            bad = [r for r in f.returns() if r in reach]
+            chk.expect(not bad, "C14.D-same-analysis", f"{name}|no bypass", f.where(bad[0]) if bad else f"{f.file}:{f.line}",
+                       f"{name} can return without running the scanner and the analysis (early return): the two entry points then decide by different rules "
+                       "whether a document has metadata", sample=f"{name}: every return passes parse_events")
     # events of the metadata path come from into_meta_iter of that parser
     pe = calls_to(fm, "analysis::event_consumer::parse_events")
     if pe:
